@@ -176,7 +176,7 @@ Lemma spline_install_clears s o g ob :
   exists ob1, get_obj (spline_install P G C cf s o g) o = Some ob1 /\ o_kind P G C ob1 = o_kind P G C ob
     /\ o_u P G C ob1 = None.
 Proof.
-  destruct (cfg_all_fields _ Hcf) as (_ & _ & _ & _ & _ & _ & _ & _ & _ & _ & _ & _ & _ & _ & _ & _ & Hsg).
+  destruct (cfg_all_fields _ Hcf) as (_ & _ & _ & _ & _ & _ & _ & _ & _ & _ & _ & _ & _ & _ & _ & _ & Hsg & _).
   intros Hg Hk. unfold spline_install. rewrite Hsg.
   destruct (clear_clears _ _ _ Hg Hk) as (ob1 & Hg1 & Hk1 & Hu1).
   fold (get_obj (clear_buffers s o) o). rewrite Hg1.
